@@ -15,7 +15,9 @@ Nothing == [wrote |-> FALSE, code |-> 0, body |-> ""]
 Sends(code, body) == [wrote |-> TRUE, code |-> code, body |-> body]
 Render(r) ==
   CASE r.shape = "none" -> Nothing
-    [] r.shape \in {"string", "bytes", "ptr_string"} -> IF r.s = "" THEN Nothing ELSE Sends(200, r.s)
+    \* a string or byte slice, also behind one pointer or held in an interface-typed result (nil / empty: nothing)
+    [] r.shape \in {"string", "bytes", "ptr_string", "ptr_bytes", "any_string", "any_bytes"} -> IF r.s = "" THEN Nothing ELSE Sends(200, r.s)
+    [] r.shape = "int_ptr_bytes" -> Sends(r.code, r.s)
     [] r.shape = "error" -> IF r.err = "" THEN Nothing ELSE Sends(500, r.err)
     [] r.shape \in {"int_string", "int_bytes"} -> Sends(r.code, r.s)
     [] r.shape = "int_error" -> Sends(r.code, r.err)
@@ -72,7 +74,9 @@ MStep(pk, n, m, e) ==
     [] e.e = "next" ->
          IF ~m.pan /\ d > 0 /\ m.stk[d].h = e.h /\ m.pend = "body"
          THEN [m EXCEPT !.stk[d].inNext = TRUE,
-                        !.pend = IF Exh(pk, n, m.lastp1) \/ m.cn THEN "no" ELSE IF m.st THEN "may" ELSE "must"]
+                        \* an explicit Next() runs the remainder whether or not something has been written (only the
+                        \* chain's advancing ON ITS OWN depends on that): the next handler, if any, must start
+                        !.pend = IF Exh(pk, n, m.lastp1) \/ m.cn THEN "no" ELSE "must"]
          ELSE Bad(m, "next outside its handler")
     [] e.e = "nextret" ->
          \* the remainder of the chain ran - as far as it gets - inside the Next() call
